@@ -33,7 +33,8 @@ ASSUMPTIONS = ["every state-changing system call is issued by its own Python-lev
                "therefore bracketed by a before- and an after-crash-point",
                "os._exit leaves on disk what kill -9 would (no buffer flush, no finally blocks)",
                "rename(2) is atomic; CLOCK_MONOTONIC is system wide"]
-SCENARIOS = ["import", "upgrade", "set", "reset_all", "reset_subset", "merge_hard", "merge_soft"]
+SCENARIOS = ["import", "upgrade", "set", "reset_all", "reset_subset", "merge_hard", "merge_soft",
+             "set_rel", "merge_soft_rel", "set_dotdot"]
 PY = sys.executable
 
 
